@@ -85,6 +85,8 @@ def gen_cases(tier, seed):
                 c["cov"] = rng.choice([1.0, 1.0, 0.75, 0.5])
                 if rng.random() < 0.2:
                     c["covlen"] = rng.choice([1.0, 0.6]); c["cov"] = 1.0
+                elif rng.random() < (0.6 if cross else 0.25):
+                    c["lenattr_only"] = True      # length attribute named, coverage by edge count: the lengths must not matter
             elif base["mode"] == "node":
                 c["cons"] = gen.jl(I.constraints_from_planted(rng, base, as_nodes=True)); c["cov"] = rng.choice([1.0, 0.5])
         r = rng.random()
@@ -106,6 +108,8 @@ def gen_cases(tier, seed):
         extra = {}
         if c.get("covlen"):
             extra = {e: {"len": rng.choice([1, 2, 5])} for e in base["edges"] if rng.random() < 0.8}
+        elif c.get("lenattr_only"):
+            extra = {e: {"len": rng.choice([2, 5, 9])} for e in base["edges"] if rng.random() < 0.8}
         c["spec"] = I.spec_of(base, drop_attr=drop, garbage=garbage, extra_eattr=extra)
         cases.append(c)
     return cases
@@ -151,6 +155,8 @@ def run_case(case):
             kw["subpath_constraints_coverage_length"] = case["covlen"]; kw["length_attr"] = "len"
         else:
             kw["subpath_constraints_coverage"] = case["cov"]
+            if case.get("lenattr_only"):
+                kw["length_attr"] = "len"
     if ign:
         kw["elements_to_ignore"] = case["ignore"]
     inst = {"cls": "MinFlowDecomp", "spec": case["spec"], "kw": kw}
